@@ -86,13 +86,15 @@ pub struct Unit {
     pub fns: Vec<FnContract>,
     pub preludes: Vec<String>,
     pub type_rewrites: Vec<(String, String)>,
+    /// (file, clause with id/props, text that must occur in the file, whitespace-insensitively)
+    pub require_texts: Vec<(String, Clause)>,
 }
 
 const FN_KEYS: &[&str] = &[
     "emit-as", "fx", "ret", "requires", "ensures", "decreases", "loop", "bind", "bind?", "exit-assert",
     "hint", "attr", "shape", "exit-assert-ret", "exit-ghost", "closure",
 ];
-const TOP_KEYS: &[&str] = &["unit", "fxcalls", "guardfn", "tryguardfn", "copy", "fn", "prelude", "typerewrite"];
+const TOP_KEYS: &[&str] = &["unit", "fxcalls", "guardfn", "tryguardfn", "copy", "fn", "prelude", "typerewrite", "require-text"];
 
 fn first_word(l: &str) -> &str {
     l.trim_start().split_whitespace().next().unwrap_or("")
@@ -160,6 +162,16 @@ pub fn parse(text: &str, path: &str) -> Unit {
             }
             "guardfn" => unit.guard_fns.extend(rest.split_whitespace().map(|s| s.to_string())),
             "tryguardfn" => unit.try_guard_fns.extend(rest.split_whitespace().map(|s| s.to_string())),
+            "require-text" => {
+                // require-text <file> [ID props] text
+                let (file, tail) = rest.split_once(char::is_whitespace).unwrap_or_else(|| panic!("{}:{}: require-text <file> [ID ..] text", path, ln));
+                let (mut cl, first) = parse_tag(tail, ln);
+                cl.text = first;
+                if let Some(c) = cur.take() {
+                    unit.fns.push(c);
+                }
+                unit.require_texts.push((file.to_string(), cl));
+            }
             "typerewrite" => {
                 let (a, b) = rest.split_once("=>").unwrap_or_else(|| panic!("{}:{}: bad typerewrite", path, ln));
                 unit.type_rewrites.push((a.trim().to_string(), b.trim().to_string()));
